@@ -322,9 +322,13 @@ type rOcc struct {
 
 func rHasDashPrefix(t string) bool { return len(t) > 0 && t[0] == '-' }
 
-// rRead classifies token t (next = following token, if any). beginsDeclared reports,
-// for a BAD token, whether it begins like a declared option (DESIGN 4.5).
-func rRead(t, next string, hasNext bool) (kind int, occs []rOcc, beginsDeclared bool) {
+// rRead classifies token t (next = following token, if any). For a BAD token,
+// skippable reports whether it is one of the malformed shapes the implementation's
+// per-option scan steps over instead of stopping at (DESIGN 4.5): `--name=` with a
+// declared name, `-x=` / `-z=v` with an empty value or an undeclared letter, a valued
+// option written separately whose next token starts with a dash, a fold whose
+// malformed part comes after declared flags.
+func rRead(t, next string, hasNext bool) (kind int, occs []rOcc, skippable bool) {
 	if t == "-" {
 		return cDash, nil, false
 	}
@@ -356,7 +360,10 @@ func rRead(t, next string, hasNext bool) (kind int, occs []rOcc, beginsDeclared 
 		if vOptTable[o].flag {
 			return cOpts, []rOcc{{o, "true", 0, len(t), 1}}, false
 		}
-		if !hasNext || rHasDashPrefix(next) {
+		if !hasNext {
+			return cBad, nil, false
+		}
+		if rHasDashPrefix(next) {
 			return cBad, nil, true
 		}
 		return cOpts, []rOcc{{o, next, 0, len(t), 2}}, false
@@ -372,7 +379,7 @@ func rRead(t, next string, hasNext bool) (kind int, occs []rOcc, beginsDeclared 
 		for i := 1; i < len(t); i++ {
 			o := vByShort(t[i])
 			if o < 0 {
-				return cBad, nil, i > 1
+				return cBad, nil, i > 1 // flags before the undeclared letter can still be taken out
 			}
 			if vOptTable[o].flag {
 				occs = append(occs, rOcc{o, "true", i, i + 1, 1})
@@ -381,7 +388,10 @@ func rRead(t, next string, hasNext bool) (kind int, occs []rOcc, beginsDeclared 
 			if i+1 < len(t) {
 				return cOpts, append(occs, rOcc{o, t[i+1:], i, len(t), 1}), false
 			}
-			if !hasNext || rHasDashPrefix(next) {
+			if !hasNext {
+				return cBad, nil, i > 1
+			}
+			if rHasDashPrefix(next) {
 				return cBad, nil, true
 			}
 			return cOpts, append(occs, rOcc{o, next, i, len(t), 2}), false
